@@ -40,9 +40,8 @@ type Contract struct {
 	Loops      map[int]*LoopSpec
 	Pure       bool // call sites use an uninterpreted function of the arguments (assumption unless body is proved deterministic+frame-free)
 	ModNothing bool // "modifies nothing": call sites keep every heap (checked syntactically for in-repo bodies)
-	ModObject  string   // "modifies object <expr>": writes only into the object <expr> points into (and what it allocates)
-	ModKinds   []string // "modifies kinds k...": writes only cells of these heap kinds (e.g. uint8 for byte buffers)
-	ModYounger string // "modifies younger <expr>": writes only to the object <expr> points into and to younger objects (assumed)
+	Mods       []ModClause // assumed frame: union of clauses (see ModClause); empty and !ModNothing = may modify anything
+	ModYounger string // (kept for the syntactic frame check) "modifies younger <expr>": writes only to the object <expr> points into and to younger objects (assumed)
 	Trusted    bool // body is not verified; contract is an assumption
 	Inline     bool // always inline at call sites
 	NoInline   bool // never inline: uncontracted havoc
@@ -52,6 +51,14 @@ type Contract struct {
 	Callbacks  map[string]bool   // function-typed parameters assumed not to modify memory the function observes
 	Witness    map[string]string // ensures label -> witness expression for its leading integer existential
 	Used       bool
+}
+
+// ModClause is one "modifies" line: cells of heap kinds Kinds (all kinds if empty) that lie in the
+// object Object points into (any object if empty) or in objects at least as young as Younger.
+type ModClause struct {
+	Object  string
+	Younger string
+	Kinds   []string
 }
 
 type UFDecl struct {
@@ -296,20 +303,24 @@ func (db *SpecDB) LoadSpecFile(file, pkgPath string) error {
 		case "modifies":
 			if rest == "nothing" {
 				cur.ModNothing = true
-			} else if strings.HasPrefix(rest, "younger ") {
-				cur.ModYounger = strings.TrimSpace(strings.TrimPrefix(rest, "younger "))
-			} else if strings.HasPrefix(rest, "object ") {
-				// modifies object <expr> [kinds k1 k2 ...]
-				r := strings.TrimSpace(strings.TrimPrefix(rest, "object "))
-				if i := strings.Index(r, " kinds "); i >= 0 {
-					cur.ModKinds = strings.Fields(r[i+7:])
+			} else {
+				cl := ModClause{}
+				r := rest
+				if i := strings.Index(r, "kinds "); i >= 0 {
+					cl.Kinds = strings.Fields(r[i+6:])
 					r = strings.TrimSpace(r[:i])
 				}
-				cur.ModObject = r
-			} else if strings.HasPrefix(rest, "kinds ") {
-				cur.ModKinds = strings.Fields(strings.TrimPrefix(rest, "kinds "))
-			} else {
-				return fmt.Errorf("%s:%d: only 'modifies nothing' is supported", file, ln)
+				switch {
+				case strings.HasPrefix(r, "younger "):
+					cl.Younger = strings.TrimSpace(strings.TrimPrefix(r, "younger "))
+					cur.ModYounger = cl.Younger
+				case strings.HasPrefix(r, "object "):
+					cl.Object = strings.TrimSpace(strings.TrimPrefix(r, "object "))
+				case r == "":
+				default:
+					return fmt.Errorf("%s:%d: bad modifies clause %q", file, ln, rest)
+				}
+				cur.Mods = append(cur.Mods, cl)
 			}
 		case "trusted":
 			cur.Trusted = true
